@@ -20,9 +20,14 @@ SCOPE = {
              'dict with str keys, dict with non-str keys, nested to depth 2, width <=2; as positional and as keyword argument; '
              'tol in {None, -1, 0, 1, 2}; rounders simple/deep/shallow; decorators inf_cache, lru_cache, safe.lfu_cache, keygen with deep on/off',
     'thorough': 'as quick with nesting depth 3',
+    'both tiers': 'plus: 10 kinds of argument that are not plain containers (namedtuple, tuple subclass with its own constructor, OrderedDict, deque, range, '
+                  'bytearray, memoryview, list iterator, generator) x 4 decorators x deep on/off x 5 tolerances: the call does not fail, the function gets '
+                  'its own object (iterators unconsumed), an equal argument hits, floats inside tuple/dict subclasses are rounded; every parameter name that occurs in '
+                  'klepto\'s own signatures as the name of a user parameter, 8 callable forms, through 8 decorators with a tolerance, keygen and the 3 standalone rounders',
 }
+SCOPE = {t: SCOPE[t] + '; ' + SCOPE['both tiers'] for t in ('quick', 'thorough')}
 ASSUMPTIONS = ['bounded scope, not a proof', 'oracle = Python round() applied to floats (top level / one level / every level inside list, tuple, '
-               'set, frozenset, dict values); dict keys are never rounded', 'no NaN; generators and other one-shot iterables are outside the scope']
+               'set, frozenset, dict values); dict keys are never rounded', 'no NaN; one-shot iterables, ranges, deques, namedtuples and other tuple/dict subclasses: only as single top-level arguments (the "exotic" unit)']
 
 LEAVES = [1.25, 1.35, 2.5, -0.55, 1e-9, 7, True, 'ab', b'ab', None]
 TOLS = [None, -1, 0, 1, 2]
@@ -198,6 +203,85 @@ def keypair_c(which, tol, deep, v1, v2):
     return out
 
 
+# ---- arguments that are not plain lists/tuples/sets/dicts ---------------------------------------------------
+import collections as _co
+P12 = _co.namedtuple('P12', 'x y')
+# (name, factory(float) -> argument, value-based repr?, one-shot?, counts as a tuple/dict of the statement?)
+EXOTIC = [('namedtuple', lambda t: P12(t, 2), True, False, True),
+          ('namedtuple nested in a list', lambda t: [P12(t, (t, 'a'))], True, False, True),
+          ('range', lambda t: range(3), True, False, False),
+          ('OrderedDict', lambda t: _co.OrderedDict([('a', t), ('b', 1)]), True, False, True),
+          ('deque', lambda t: _co.deque([t, 1]), True, False, False),
+          ('bytearray', lambda t: bytearray(b'ab'), True, False, False),
+          ('memoryview', lambda t: memoryview(b'ab'), False, False, False),
+          ('list iterator', lambda t: iter([t, 2]), False, True, False),
+          ('generator', lambda t: (z for z in [t, 2]), False, True, False),
+          ('tuple subclass with its own constructor', lambda t: _Pair(t, 2), True, False, False)]      # cannot be rebuilt: must not fail; rounding inside is not demanded
+
+
+class _Pair(tuple):
+    """a tuple subclass that cannot be rebuilt from one sequence argument"""
+
+    def __new__(cls, a, b):
+        return tuple.__new__(cls, (a, b))
+
+    def __repr__(self):
+        return '_Pair(%r, %r)' % (self[0], self[1])
+
+
+@deal.ensure(lambda which, tol, deep, idx, result: result['skipped'] or result['raised'] is None,
+             message='never_fails: rounding never makes a valid call fail')
+@deal.ensure(lambda which, tol, deep, idx, result: result['skipped'] or result['raised'] is not None or result['received_original'],
+             message='function_sees_original_arguments: the wrapped function receives the caller\'s own objects, iterators not consumed')
+@deal.ensure(lambda which, tol, deep, idx, result: result['skipped'] or result['raised'] is not None or result['repeat_hit'] in (None, True),
+             message='same_rounding_shares_entry: an equal argument given again is answered from the cache')
+@deal.ensure(lambda which, tol, deep, idx, result: result['skipped'] or result['raised'] is not None or result['near_shares'] in (None, True),
+             message='same_rounding_shares_entry: floats inside a tuple or dict (subclass) are rounded with deep=True')
+def exotic_c(which, tol, deep, idx):
+    import klepto
+    import klepto.safe
+    from klepto.keymaps import stringmap
+    name, mk, by_value, oneshot, is_container = EXOTIC[idx]
+    out = {'skipped': False, 'raised': None, 'received_original': True, 'repeat_hit': None, 'near_shares': None}
+    log = []
+
+    def f(x, y=0):
+        log.append(x)
+        return 'r'
+
+    def build(t):
+        if which == 'keygen':
+            return klepto.keygen(tol=t, deep=deep, keymap=stringmap())(f)
+        dec = {'inf_cache': klepto.inf_cache, 'lru_cache': klepto.lru_cache, 'safe.lfu_cache': klepto.safe.lfu_cache}[which]
+        return dec(tol=t, deep=deep, keymap=stringmap())(f)
+    try:
+        build(None)(mk(1.26))       # the call is valid without a tolerance
+    except Exception:      # noqa
+        out['skipped'] = True
+        return out
+    try:
+        w = build(tol)
+        v = mk(1.26)
+        w(v)
+        if which == 'keygen':
+            if oneshot:
+                out['received_original'] = list(v) == [1.26, 2]
+            return out
+        out['received_original'] = bool(log) and log[-1] is v and (not oneshot or list(v) == [1.26, 2])
+        if by_value:
+            n = len(log)
+            w(mk(1.26))
+            out['repeat_hit'] = len(log) == n
+            if is_container and deep and tol == 1:
+                n = len(log)
+                w(mk(1.31))
+                out['near_shares'] = len(log) == n
+    except Exception as e:      # noqa
+        out['raised'] = e
+    return out
+
+
+
 @deal.ensure(lambda which, tol, deep, dflt, result: result['raised'] is None and result['same_key'],
              message='default_omitted_or_spelled_out: with a tolerance, omitting a float default and spelling it out give the same key')
 def defaultkey_c(which, tol, deep, dflt):
@@ -227,6 +311,10 @@ def units(tier, seed):
     for which in ('inf_cache', 'lru_cache', 'safe.lfu_cache', 'keygen'):
         for deep in (False, True):
             us.append(('keys', which, deep, depth))
+    us.append(('exotic',))
+    from bounded import reserved_names as RN
+    n = len(RN.names())
+    us += [('reserved', lo, min(lo + 8, n)) for lo in range(0, n, 8)]
     return us
 
 
@@ -252,6 +340,29 @@ def klass_of(kind, value, msg):
 def run_unit(unit):
     out = {'evaluations': 0, 'distinct': 0, 'violations': [], 'samples': [], 'counters': {}}
     seen = set()
+    if unit[0] == 'reserved':
+        from bounded import reserved_names as RN
+        return RN.run_c12(unit[1], unit[2])
+    if unit[0] == 'exotic':
+        for which in ('inf_cache', 'lru_cache', 'safe.lfu_cache', 'keygen'):
+            for deep in (False, True):
+                for tol in TOLS:
+                    for idx in range(len(EXOTIC)):
+                        out['evaluations'] += 4
+                        out['distinct'] += 1
+                        try:
+                            exotic_c(which, tol, deep, idx)
+                        except deal.PostContractError as e:
+                            clause = str(e.message).split(':')[0]
+                            klass = 'an argument that is a %s%s' % (EXOTIC[idx][0], ' (deep=True)' if deep else '')
+                            if (clause, klass) in seen:
+                                continue
+                            seen.add((clause, klass))
+                            out['violations'].append({'clause': clause, 'klass': klass,
+                                                      'message': '%s(tol=%r, deep=%r) called with a %s: %s' % (which, tol, deep, EXOTIC[idx][0], e.message),
+                                                      'witness': {'unit': 'exotic', 'which': which, 'deep': deep, 'tol': tol, 'index': idx}})
+        out['samples'].append({'exotic arguments': [e[0] for e in EXOTIC]})
+        return out
     if unit[0] == 'rounder':
         _, kind, depth = unit
         vals = structures(depth)
@@ -330,7 +441,13 @@ def replay(w):
     if 'dispatch' in w:
         from checks import c11_ignore
         return c11_ignore.replay(w)
+    if 'reserved' in w:
+        from bounded import reserved_names as RN
+        return RN.replay(w)
     try:
+        if w['unit'] == 'exotic':
+            exotic_c(w['which'], w['tol'], w['deep'], w['index'])
+            return False, '%s(tol=%r, deep=%r) called with a %s: contract holds' % (w['which'], w['tol'], w['deep'], EXOTIC[w['index']][0])
         if w['unit'] == 'default':
             defaultkey_c(w['which'], w['tol'], w['deep'], w['dflt'])
             return False, 'keys agree'
